@@ -9,6 +9,7 @@ import MhlModel.Seal
 import MhlModel.Commands
 import MhlModel.DirHash
 import MhlModel.Time
+import MhlModel.Civil
 import MhlModel.Updater
 import MhlModel.Crash
 import MhlModel.Xml
